@@ -26,11 +26,29 @@ exit of every handler.  Stress relief is off (`Collector.Stressed() = false`).
 namespace Refinery.Model.BatchHandler
 open Refinery.Gen.Responses
 
+/-- which of the two routers serves the request: the one on the client-facing listener
+(`RouterTypeIncoming`) or the one on the peer listener (`RouterTypePeer`).  Both run the same
+handlers; the kind is consulted in one place only, at the end of `processEvent`. -/
+inductive Listener where
+  | incoming | peer
+  deriving DecidableEq, Repr
+
+/-- the collector's two input queues -/
+inductive Queue where
+  | addSpan           -- `Collector.AddSpan`
+  | addSpanFromPeer   -- `Collector.AddSpanFromPeer`
+  deriving DecidableEq, Repr
+
+/-- `if r.routerType.IsIncoming() { AddSpan } else { AddSpanFromPeer }` -/
+def collectorQueue : Listener → Queue
+  | .incoming => .addSpan
+  | .peer => .addSpanFromPeer
+
 /-- where `processEvent` hands an event -/
 inductive Sink where
-  | upstream    -- `UpstreamTransmission.EnqueueEvent`: no trace id
-  | peer        -- `PeerTransmission.EnqueueEvent`: the trace belongs to another shard
-  | collector   -- `Collector.AddSpan` returned nil
+  | upstream              -- `UpstreamTransmission.EnqueueEvent`: no trace id
+  | peer                  -- `PeerTransmission.EnqueueEvent`: the trace belongs to another shard
+  | collector (q : Queue) -- `Collector.AddSpan` / `AddSpanFromPeer` returned nil
   deriving DecidableEq, Repr
 
 /-- one event of a request, by what decides its fate -/
@@ -53,12 +71,12 @@ inductive PE where
 
 /-- `Router.processEvent` (it does not look at emptiness: an event without data has no trace id and
 goes upstream). -/
-def processEvent : Item → PE
+def processEvent (l : Listener) : Item → PE
   | .probe => .dropped
   | .emptyData | .noData | .nonTrace => .sent .upstream
   | .peer => .sent .peer
-  | .localOk => .sent .collector
-  | .localFull => .wouldBlock
+  | .localOk => .sent (.collector (collectorQueue l))
+  | .localFull => .wouldBlock   -- the error of the queue `collectorQueue l`, returned as it is
 
 /-- the fault points of one request (`true` = the fault fires if the handler gets there) -/
 structure Faults where
@@ -113,9 +131,9 @@ structure ItemRes where
 answers 400 without calling `processEvent`; the OTLP loops have no such test.  The status is what
 `batch` puts in the list (`errors.Is(err, ErrWouldBlock)` → 429, other error → 400, nil → 202);
 the OTLP loops only log the error. -/
-def itemRes (checkEmpty : Bool) (it : Item) : ItemRes :=
+def itemRes (l : Listener) (checkEmpty : Bool) (it : Item) : ItemRes :=
   if checkEmpty && it == .emptyData then ⟨stBadRequest, none, false, false⟩
-  else match processEvent it with
+  else match processEvent l it with
     | .sent s => ⟨stAccepted, some s, false, true⟩
     | .dropped => ⟨stAccepted, none, false, true⟩
     | .wouldBlock => ⟨stTooManyRequests, none, true, true⟩
@@ -126,32 +144,32 @@ structure Loop where
   deriving DecidableEq, Repr
 
 /-- `for _, ev := range events { … }` starting at index `i` -/
-def loop (checkEmpty : Bool) : Nat → List Item → Loop
+def loop (l : Listener) (checkEmpty : Bool) : Nat → List Item → Loop
   | _, [] => {}
   | i, it :: rest =>
-    let r := itemRes checkEmpty it
-    let l := loop checkEmpty (i + 1) rest
-    { sts := r.status :: l.sts
-      eff := { sent := (match r.sink with | some s => [(i, s)] | none => []) ++ l.eff.sent
-               refused := (if r.refused then [i] else []) ++ l.eff.refused
-               attempts := (if r.attempted then [i] else []) ++ l.eff.attempts } }
+    let r := itemRes l checkEmpty it
+    let t := loop l checkEmpty (i + 1) rest
+    { sts := r.status :: t.sts
+      eff := { sent := (match r.sink with | some s => [(i, s)] | none => []) ++ t.eff.sent
+               refused := (if r.refused then [i] else []) ++ t.eff.refused
+               attempts := (if r.attempted then [i] else []) ++ t.eff.attempts } }
 
 /-- `Router.event` behind `apiKeyProcessor` (when reached through the mux). -/
-def handleEvent (viaMux : Bool) (f : Faults) (it : Item) : Out :=
+def handleEvent (l : Listener) (viaMux : Bool) (f : Faults) (it : Item) : Out :=
   if viaMux && f.keyBlank then ⟨[.err stAuthInvalid], {}⟩            -- apiKeyProcessor
   else if f.readFails then ⟨[.err stPostBody], {}⟩                   -- readAndCloseMaybeCompressedBody
   else if f.datasetBad then ⟨[.err stReqToEvent], {}⟩                -- requestToEvent: dataset
   else if f.envFails then ⟨[.err stReqToEvent], {}⟩                  --   getEnvironmentName
   else if f.parseFails then ⟨[.err stReqToEvent], {}⟩                --   unmarshal
   else if it == .emptyData then ⟨[.err stReqToEvent], {}⟩            --   len(data) == 0
-  else match processEvent it with
+  else match processEvent l it with
     | .sent s => ⟨[], { sent := [(0, s)], attempts := [0] }⟩         -- nothing written: implicit 200
     | .dropped => ⟨[], { attempts := [0] }⟩
     | .wouldBlock => ⟨[.err stReqToEvent], { refused := [0], attempts := [0] }⟩
 
 /-- `Router.batch`.  With `fixed = false` (the code as it is) the dataset and the environment
 error are answered with `handlerReturnWithError` and the handler carries on. -/
-def handleBatch (fixed viaMux : Bool) (f : Faults) (items : List Item) : Out :=
+def handleBatch (fixed : Bool) (l : Listener) (viaMux : Bool) (f : Faults) (items : List Item) : Out :=
   if viaMux && f.keyBlank then ⟨[.err stAuthInvalid], {}⟩            -- apiKeyProcessor
   else if f.readFails then ⟨[.err stPostBody], {}⟩
   else
@@ -162,37 +180,37 @@ def handleBatch (fixed viaMux : Bool) (f : Faults) (items : List Item) : Out :=
       if fixed && f.envFails then ⟨a1 ++ a2, {}⟩                     -- the missing `return`
       else if f.parseFails then ⟨a1 ++ a2 ++ [.err stBatchToEvent], {}⟩
       else
-        let l := loop true 0 items
-        ⟨a1 ++ a2 ++ [.list l.sts], l.eff⟩
+        let t := loop l true 0 items
+        ⟨a1 ++ a2 ++ [.list t.sts], t.eff⟩
 
 /-- `processOTLPRequest` / `processOTLPRequestBatchMsgp`: (returned an error?, effects). -/
-def processOTLP (fixed : Bool) (f : Faults) (items : List Item) : Bool × Effects :=
+def processOTLP (fixed : Bool) (l : Listener) (f : Faults) (items : List Item) : Bool × Effects :=
   if f.envFails then (fixed, {})                                     -- `return nil` / fixed: `return err`
-  else (false, (loop false 0 items).eff)
+  else (false, (loop l false 0 items).eff)
 
 /-- `postOTLPTrace` / `postOTLPLogs` -/
-def handleOtlpHttp (fixed logs : Bool) (f : Faults) (items : List Item) : Out :=
+def handleOtlpHttp (fixed : Bool) (l : Listener) (logs : Bool) (f : Faults) (items : List Item) : Out :=
   if f.ctBad then ⟨[.otlpFail stOtlpContentType], {}⟩               -- Validate…Headers: content type first
   else if f.keyBlank then ⟨[.otlpFail stUnauthorized], {}⟩          --   then the key
   else if f.readFails || f.parseFails then
     ⟨[.otlpFail (if logs then stInternal else stOtlpParseBody)], {}⟩ -- husky translate…FromReader
   else
-    let (failed, eff) := processOTLP fixed f items
+    let (failed, eff) := processOTLP fixed l f items
     if failed then ⟨[.otlpFail stInternal], eff⟩ else ⟨[.otlpOk], eff⟩
 
 /-- `customTraceExportHandler` + `ExportTraceData` / `LogsServer.Export` -/
-def handleOtlpGrpc (fixed logs : Bool) (f : Faults) (items : List Item) : Out :=
+def handleOtlpGrpc (fixed : Bool) (l : Listener) (logs : Bool) (f : Faults) (items : List Item) : Out :=
   if f.keyBlank then ⟨[.grpc grpcUnauthenticated], {}⟩
   else if !logs && (f.parseFails || f.readFails) then ⟨[.grpc grpcUnknown], {}⟩   -- `dec(in)` fails
   else
-    let (failed, eff) := processOTLP fixed f items
+    let (failed, eff) := processOTLP fixed l f items
     if failed then ⟨[.grpc grpcInternal], eff⟩ else ⟨[.grpc grpcOK], eff⟩
 
-def handle (fixed : Bool) : Req → Out
-  | .event viaMux f it => handleEvent viaMux f it
-  | .batch viaMux f items => handleBatch fixed viaMux f items
-  | .otlpHttp logs f items => handleOtlpHttp fixed logs f items
-  | .otlpGrpc logs f items => handleOtlpGrpc fixed logs f items
+def handle (fixed : Bool) (l : Listener) : Req → Out
+  | .event viaMux f it => handleEvent l viaMux f it
+  | .batch viaMux f items => handleBatch fixed l viaMux f items
+  | .otlpHttp logs f items => handleOtlpHttp fixed l logs f items
+  | .otlpGrpc logs f items => handleOtlpGrpc fixed l logs f items
 
 /-! ## Reading a response -/
 
